@@ -217,7 +217,8 @@ func TestVfAffinity(t *testing.T) {
 		}
 		n := 0
 		for total > 0 || len(inflight) > 0 {
-			if total > 0 && (len(inflight) == 0 || rnd.Intn(2) == 0) {
+			// every fourth case: all requests first (up to 160 transactions pending at once), then the responses
+			if total > 0 && (len(inflight) == 0 || rnd.Intn(2) == 0 || i%4 == 1) {
 				j := rnd.Intn(nc)
 				if left[j] == 0 {
 					continue
